@@ -263,10 +263,33 @@ func cmdCheck(args []string) int {
 	}
 	stats := &solveStats{byBackend: map[string]int{}}
 	runner(e, res, timeout, two, work, stats)
-	if len(e.cerrors) > 0 {
-		for _, m := range e.cerrors {
+	// A clause that no longer binds to the source (the local, statement or
+	// loop it names is gone) is an obligation that cannot be discharged on
+	// this tree: reported as a failed obligation of the properties it is
+	// tagged with. Errors outside clauses (declarations, axioms) stay fatal.
+	fatal := 0
+	byMsg := map[string]*Clause{}
+	for _, ce := range e.cerrClauses {
+		byMsg[ce.msg] = ce.c
+	}
+	for _, m := range e.cerrors {
+		c := byMsg[m]
+		if c == nil {
 			fmt.Println("ERROR contract:", m)
+			fatal++
+			continue
 		}
+		if len(c.Props) > 0 && !hasProp(c.Props, *prop) {
+			res.notes = append(res.notes, "clause of another property does not bind (ignored here): "+m)
+			continue
+		}
+		fmt.Println("UNBOUND contract clause:", m)
+		ft := e.newFT(nil)
+		res.obls = append(res.obls, &Obligation{Name: "contract/unbound/" + filepath.Base(filepath.Dir(c.File)) + ":" + c.name(), Kind: "contract", Props: []string{*prop},
+			Func: filepath.Base(filepath.Dir(c.File)), Pos: fmt.Sprintf("%s:%d", c.File, c.Line), Text: c.Text, Goal: "false", Reach: "true", ft: ft,
+			Result: "unbound", SrcLine: m})
+	}
+	if fatal > 0 {
 		fmt.Println("ERROR undecided: contract files do not bind to the current source")
 		return 2
 	}
@@ -636,6 +659,29 @@ func (e *Engine) callsTaggedPre(f *ssa.Function, p string) bool {
 		for _, ins := range b.Instrs {
 			ci, ok := ins.(ssa.CallInstruction)
 			if !ok {
+				// taking a contracted function as a value (method value, closure,
+				// plain function): it may be called dynamically from here
+				var fcs []*FuncContract
+				for _, op := range ins.Operands(nil) {
+					if op == nil || *op == nil {
+						continue
+					}
+					if g, ok := (*op).(*ssa.Function); ok {
+						if t := boundTarget(g); t != nil {
+							g = t
+						}
+						if fc := e.contractOf(g); fc != nil {
+							fcs = append(fcs, fc)
+						}
+					}
+				}
+				for _, fc := range fcs {
+					for _, r := range fc.Requires {
+						if hasProp(r.Props, p) {
+							return true
+						}
+					}
+				}
 				continue
 			}
 			c := ci.Common()
